@@ -308,10 +308,13 @@ Definition component (fuel : nat) (tree : ty -> value -> option tlv)
            (fields : list (string * value)) (m : member_of ty) : option (list tlv) :=
   match assoc (m_name m) fields with
   | Some v =>
-    match m_opt m with
-    | Default d => if equals_default fuel (m_ty m) v d then Some []
-                   else match tree (m_ty m) v with Some t => Some [t] | None => None end
-    | _ => match tree (m_ty m) v with Some t => Some [t] | None => None end
+    match tree (m_ty m) v with
+    | None => None                       (* not a value of the component's type *)
+    | Some t =>
+      match m_opt m with
+      | Default d => if equals_default fuel (m_ty m) v d then Some [] else Some [t]
+      | _ => Some [t]
+      end
     end
   | None => match m_opt m with Mandatory => None | _ => Some [] end
   end.
@@ -371,13 +374,19 @@ Fixpoint der_tree (fuel : nat) (t : ty) (v : value) {struct fuel} : option tlv :
     | TBits named _ =>
       match v with
       | VBits bs n =>
-        match bitstring_octets (match named with Some _ => true | None => false end) bs n with
-        | Some c => Some (Prim Univ 3 c)
-        | None => None
-        end
+        if forallb is_byteb bs then
+          match bitstring_octets (match named with Some _ => true | None => false end) bs n with
+          | Some c => Some (Prim Univ 3 c)
+          | None => None
+          end
+        else None
       | _ => None
       end
-    | TOctets _ => match v with VBytes bs => Some (Prim Univ 4 bs) | _ => None end
+    | TOctets _ =>
+      match v with
+      | VBytes bs => if forallb is_byteb bs then Some (Prim Univ 4 bs) else None
+      | _ => None
+      end
     | TStr k _ _ =>
       match v, string_tag k with
       | VStr cps, Some tg => match string_octets k cps with
